@@ -245,6 +245,8 @@ def owners(div):
     obs = div.get("obs") if isinstance(div.get("obs"), dict) else {}
     if kind == "threads":
         return {"C20"}
+    if kind == "rejected":
+        return set(FREE_OWNERS.get(fn, {"C14"})) | {"C14"}
     if kind == "crash" and fn == "wincmd":
         return {"C18"}
     if kind == "crash":
@@ -358,6 +360,9 @@ def signature(prop, div):
     args = {k: v for k, v in call.items() if k not in ("e", "fn", "h")}
     obs = div.get("obs") if isinstance(div.get("obs"), dict) else {}
     keys = div.get("keys") or [div.get("key")]
+    if div.get("kind") == "rejected":
+        return "%s %s kind=rejected-by-CoreTrace args=%s at=%s" % (prop, fn, json.dumps(args, sort_keys=True, separators=(",", ":"))[:200],
+                                                                  json.dumps(obs.get("rejected_line"), sort_keys=True, separators=(",", ":"))[:300])
     if div.get("kind") == "contract" and div.get("fn") == "wincmd":
         return "%s wincmd why=%s argv=%s cmd=%s" % (prop, ",".join(div.get("why", [])), json.dumps(call.get("argv")), json.dumps(obs.get("cmd")))
     if div.get("kind") == "contract":
@@ -802,6 +807,85 @@ def fam_threads(tier, outdir):
             "wall_tlc": time.time() - t0, "asan_replayed": 0, "replay_stride": 1}
 
 
+FREE_OWNERS = {"stop": {"C07", "C01"}, "wait": {"C08", "C01"}, "poll": {"C08", "C09"}, "read": {"C02", "C17"}, "write": {"C02", "C17"},
+               "close": {"C02"}, "drain": {"C16"}, "destroy": {"C15", "C05"}, "start": {"C04", "C14"}, "terminate": {"C06"}, "kill": {"C06"},
+               "pid": {"C14"}, "new": {"C14"}}
+
+
+def fam_free(tier, outdir):
+    """Trace validation (CoreTrace.tla): random call sequences run against the code over simk in free-running mode;
+    every logged step must be a step of Core.tla."""
+    import genfree
+    t0 = time.time()
+    exe = vlib.build_driver("plain")
+    aexe = vlib.build_driver("asan")
+    per_cap = 250 if tier == "quick" else 8000
+    bad, states, trans, nplans, nlines, nstuck = [], 0, 0, 0, 0, 0
+    samples = []
+    env = dict(os.environ); env.update(vlib.ASAN_ENV)
+    for cap in (4, 8, 32):
+        ps = genfree.plans(SEED, per_cap, cap)
+        inp = ("\n".join(json.dumps(p, separators=(",", ":")) for p in ps) + "\n").encode()
+        traces = []
+        for which, ex in (("plain", exe), ("asan", aexe)):
+            sub = ps if which == "plain" else ps[::5]
+            r = subprocess.run([ex], input=("\n".join(json.dumps(p, separators=(",", ":")) for p in sub) + "\n").encode(), capture_output=True, env=env)
+            for ln in r.stdout.decode("utf8", "replace").splitlines():
+                v = json.loads(ln)
+                if v.get("ok") != 1:
+                    v["flavor"] = which; v.setdefault("fn", (v.get("call") or {}).get("fn", "?"))
+                    bad.append(v)
+                elif which == "plain":
+                    traces.append(v["trace"])
+                    nstuck += 1 if v.get("stuck") else 0
+        nplans += len(ps)
+        if not samples and traces:
+            samples.append(traces[0][:12])
+        # validate, dropping a rejected execution and going on with the rest
+        for attempt in range(6):
+            tf = os.path.join(outdir, "free_cap%d.ndjson" % cap)
+            starts = []
+            with open(tf, "w") as fh:
+                n = 0
+                for tr in traces:
+                    starts.append(n + 1)
+                    fh.write('{"e":"cfg"}\n'); n += 1
+                    for t in tr[1:]:
+                        fh.write(json.dumps(t, separators=(",", ":")) + "\n"); n += 1
+            cfgp = os.path.join(outdir, "CoreTrace_cap%d.cfg" % cap)
+            open(cfgp, "w").write(open(os.path.join(SPEC, "CoreTrace.cfg")).read().replace("PipeCap = 8", "PipeCap = %d" % cap))
+            e2 = dict(os.environ); e2["TRACE"] = tf
+            meta = os.path.join(outdir, "meta_free")
+            r = subprocess.run(["java", "-Xss64m", "-Xmx6g", "-cp", vlib.TLA_CP, "tlc2.TLC", "-workers", "1", "-metadir", meta, "-config", cfgp,
+                                os.path.join(SPEC, "CoreTrace.tla")], capture_output=True, text=True, cwd=SPEC, env=e2)
+            shutil.rmtree(meta, ignore_errors=True)
+            m = re.search(r'<<"MATCHED", (\d+), (\d+)>>', r.stdout)
+            if not m or "No error has been found" not in r.stdout:
+                raise Infra("CoreTrace validation did not complete:\n" + r.stdout[-2000:])
+            st = parse_tlc_stats(r.stdout); states += st["states"]; trans += st["transitions"]
+            matched, total = int(m.group(1)), int(m.group(2))
+            if matched > total:
+                nlines += total
+                break
+            # the execution containing line `matched` was rejected there
+            k = max(i for i, s0 in enumerate(starts) if s0 <= matched)
+            tr = traces[k]
+            at = matched - starts[k]            # index into tr (tr[0] is the cfg line)
+            rec = tr[at] if at < len(tr) else {}
+            call = {}
+            for t in tr[:at + 1]:
+                if t.get("e") == "begin":
+                    call = t["call"]
+            bad.append({"ok": 0, "kind": "rejected", "fn": call.get("fn", "?"), "call": {kk: vv for kk, vv in call.items() if kk not in ("m", "sched")},
+                        "obs": {"rejected_line": rec, "line": at}, "script": ps[[id(x) for x in traces].index(id(tr))] if False else None, "trace": tr, "cap": cap})
+            traces.pop(k)
+        else:
+            raise Infra("too many rejected executions in one shard")
+    return {"family": "free", "tlc": {"states": states, "transitions": trans, "depth": 0}, "scripts": nplans, "replayed": nplans + nplans // 5, "ok": nplans - len(bad),
+            "bad": bad, "samples": samples, "wall_tlc": time.time() - t0, "asan_replayed": nplans // 5, "replay_stride": 1,
+            "trace_lines_validated": nlines, "executions_ending_blocked_forever": nstuck}
+
+
 def fam_wrapper(tier, outdir):
     cfg = os.path.join(outdir, "Wrapper.cfg")
     write_cfg(cfg, "Spec", {}, ["Injective"], view=None, action_constraint=None)
@@ -868,13 +952,13 @@ def run_tlc_plain(name, module, cfgpath, outdir, timeout=1500, workers=8):
     return st
 
 
-FAMILIES = {"env2": lambda t, o: fam_launch("env2", t, o), "two": fam_two, "restart": fam_restart, "threads": fam_threads, "conc": fam_conc, "wincmd": fam_wincmd, "wrapper": fam_wrapper, "faults": fam_faults, "env": lambda t, o: fam_launch("env", t, o), "wiring": lambda t, o: fam_launch("wiring", t, o), "options": lambda t, o: fam_launch("options", t, o),
+FAMILIES = {"free": fam_free, "env2": lambda t, o: fam_launch("env2", t, o), "two": fam_two, "restart": fam_restart, "threads": fam_threads, "conc": fam_conc, "wincmd": fam_wincmd, "wrapper": fam_wrapper, "faults": fam_faults, "env": lambda t, o: fam_launch("env", t, o), "wiring": lambda t, o: fam_launch("wiring", t, o), "options": lambda t, o: fam_launch("options", t, o),
             "destroy": fam_destroy, "status": fam_status, "run": fam_run, "stop": fam_stop, "life": fam_life, "poll": fam_poll, "stream": fam_stream, "drain": fam_drain}
 
 PROPS = {
-    "C01": {"families": ["status", "stop", "two"], "title": "exit status exact, stable, reaped once"},
+    "C01": {"families": ["status", "stop", "two", "free"], "title": "exit status exact, stable, reaped once"},
     "C06": {"families": ["stop", "faults", "two"], "title": "only the own unreaped child is signalled or waited for"},
-    "C07": {"families": ["stop"], "title": "stop sequences"},
+    "C07": {"families": ["stop", "free"], "title": "stop sequences"},
     "C03": {"families": ["env", "env2"], "title": "launch fidelity: argv, environment, working directory, program resolution"},
     "C12": {"families": ["env", "env2", "faults"], "title": "start leaves the caller untouched and gives the child a clean signal state"},
     "C10": {"families": ["wiring"], "title": "each standard stream is connected exactly where the options say"},
@@ -891,13 +975,13 @@ PROPS = {
     "C19": {"families": ["wrapper"], "title": "reproc++ is a faithful mapping of the C API",
             "level_text": "TLC enumerates the option records, wrapper methods and C return values of spec/Wrapper.tla (every field with several pairwise distinguishable values) and predicts what the C layer must receive and what the wrapper must return; each point is executed through the real reproc++ sources over a recording mock of the C API and compared.",
             "technique": "TLA+ mapping model (Wrapper.tla) enumerated by TLC; every point replayed through reproc++ over a mock C API (conformance)"},
-    "C14": {"families": ["life"], "title": "life cycle; misuse errors, never UB"},
-    "C02": {"families": ["stream"], "title": "stream fidelity"},
-    "C15": {"families": ["destroy"], "title": "destroy applies the stop policy"},
-    "C16": {"families": ["drain", "run"], "title": "drain and run"},
-    "C17": {"families": ["stream"], "title": "nonblocking never blocks; blocking waits only for the child"},
-    "C08": {"families": ["poll"], "title": "deadlines and timeouts bound every wait and poll"},
-    "C09": {"families": ["poll", "stream"], "title": "poll reports exactly the true events"},
+    "C14": {"families": ["life", "free"], "title": "life cycle; misuse errors, never UB"},
+    "C02": {"families": ["stream", "free"], "title": "stream fidelity"},
+    "C15": {"families": ["destroy", "free"], "title": "destroy applies the stop policy"},
+    "C16": {"families": ["drain", "run", "free"], "title": "drain and run"},
+    "C17": {"families": ["stream", "free"], "title": "nonblocking never blocks; blocking waits only for the child"},
+    "C08": {"families": ["poll", "free"], "title": "deadlines and timeouts bound every wait and poll"},
+    "C09": {"families": ["poll", "stream", "free"], "title": "poll reports exactly the true events"},
 }
 
 NOT_APPLICABLE = {}
@@ -971,7 +1055,7 @@ def conclude(prop, tier, results, known, outdir, t0):
                        "script": d.get("script")}, f)
         if n < 25:
             # report only what an immediate re-run repeats (guards against the environment, DESIGN 5.8)
-            if d.get("script") is not None and d.get("kind") not in ("contract", "threads") and d.get("fn") != "wincmd" and replay(path, quiet=True) == 0:
+            if d.get("script") is not None and d.get("kind") not in ("contract", "threads", "rejected") and d.get("fn") != "wincmd" and replay(path, quiet=True) == 0:
                 continue
             if d.get("kind") == "contract" and d.get("fn") != "wincmd" and n < 6 and not recheck_contract(d, os.path.join(OUT, prop, "recheck")):
                 continue
